@@ -267,6 +267,17 @@ fn run_exposed(a: &Args) -> Report {
         if global {
             b = b.set_buckets(&[99.0, 1000.0]).unwrap();
         }
+        // the summary's rolling window: bucket count and bucket duration set independently (defaults 3 x 20 s)
+        let cfg_count: Option<u32> = *r.pick(&[None, None, Some(1), Some(2), Some(5)]);
+        let cfg_dur: Option<u64> = *r.pick(&[None, None, Some(5), Some(40)]);
+        if let Some(c) = cfg_count {
+            b = b.set_bucket_count(NonZeroU32::new(c).unwrap());
+        }
+        if let Some(d) = cfg_dur {
+            b = b.set_bucket_duration(Duration::from_secs(d)).unwrap();
+        }
+        let bucket_secs = cfg_dur.unwrap_or(20);
+        let window_secs = cfg_count.unwrap_or(3) as u64 * bucket_secs;
         let (clock, mock) = quanta::Clock::mock();
         mock.increment(Duration::from_secs(1000));
         let rec = b.verif_build_with_clock(clock.clone());
@@ -288,9 +299,20 @@ fn run_exposed(a: &Args) -> Report {
         });
         // sometimes the rendering happens after every sample has left the summary's rolling window (default 3 x 20 s)
         let aged = r.chance(1, 2);
+        // 0 = not aged; otherwise certainly outside the window (more than window + one bucket old) or certainly inside
+        // (less than window - one bucket old, when the window has more than one bucket)
+        let mut age_class = 0u8;
         if aged {
             let _ = quanta::with_clock(&clock, || handle.render()); // samples are pulled into the distribution at their recording time
-            mock.increment(Duration::from_secs(*r.pick(&[61u64, 3600])));
+            let inside_possible = window_secs > 2 * bucket_secs;
+            let age = if inside_possible && r.chance(1, 3) {
+                age_class = 2;
+                (window_secs - bucket_secs) / 2
+            } else {
+                age_class = 1;
+                *r.pick(&[window_secs + bucket_secs + 1, window_secs + bucket_secs + 1, 3600 + window_secs])
+            };
+            mock.increment(Duration::from_secs(age));
         }
         if described && !before {
             rec.describe_histogram(KeyName::from(name.clone()), unit, SharedString::from("d"));
@@ -354,6 +376,18 @@ fn run_exposed(a: &Args) -> Report {
         if cnt != Some(4.0) || sum != Some(exp_sum) {
             rep.violation(if exp_hist { "C15:histogram-sum-count-not-covering-all" } else { "C15:summary-sum-count-not-covering-all" }, jo! {"what" => "the exposed _sum/_count do not cover all samples recorded", "count" => format!("{:?}", cnt), "expected_count" => 4, "sum" => format!("{:?}", sum), "expected_sum" => format!("{:?}", exp_sum), "rendered_after_window_expired" => aged, "case" => ctx.clone()});
             continue;
+        }
+        if !exp_hist && age_class != 0 {
+            // quantiles come from the samples inside the rolling window only
+            let qmax = fam.samples.iter().filter(|s| s.1.iter().any(|(k, _)| k == "quantile")).map(|s| s.2).fold(0.0f64, f64::max);
+            if age_class == 1 && qmax != 0.0 {
+                rep.violation("C15:expired-sample-influences-quantile:exposed", jo! {"what" => "samples older than bucket count x bucket duration (by more than one bucket) still shape the exposed quantiles", "window_secs" => window_secs, "bucket_count_configured" => format!("{:?}", cfg_count), "bucket_duration_configured_secs" => format!("{:?}", cfg_dur), "largest_quantile_value" => qmax, "case" => ctx.clone()});
+                continue;
+            }
+            if age_class == 2 && qmax < 40.0 {
+                rep.violation("C15:in-window-sample-missing:exposed", jo! {"what" => "samples younger than the rolling window (by more than one bucket) no longer shape the exposed quantiles", "window_secs" => window_secs, "bucket_count_configured" => format!("{:?}", cfg_count), "bucket_duration_configured_secs" => format!("{:?}", cfg_dur), "largest_quantile_value" => qmax, "case" => ctx.clone()});
+                continue;
+            }
         }
         if exp_hist {
             let les: Vec<String> = fam.samples.iter().filter(|s| s.0.ends_with("_bucket")).filter_map(|s| s.1.iter().find(|(k, _)| k == "le").map(|x| x.1.clone())).collect();
